@@ -8,6 +8,7 @@
 package main
 
 import (
+	"runtime/debug"
 	"bytes"
 	"context"
 	"crypto/sha256"
@@ -30,8 +31,8 @@ import (
 )
 
 const schemaPlain = `type Doc {
-	name: String
-	age: Int
+	name: String @index
+	age: Int @index
 	score: Float
 	flag: Boolean
 	points: Int @crdt(type: pcounter)
@@ -883,6 +884,43 @@ func (w *world) deliver(dst int, l string) {
 	}
 }
 
+// indexAgrees compares, for every value an indexed field takes among the live documents of replica r (and null),
+// the index-backed equality lookup with the documents holding that value.
+func (w *world) indexAgrees(r int) {
+	var m map[string][]map[string]any
+	if err := json.Unmarshal([]byte(w.reps[r].n.GQL(w.ctx, `query { Doc { _docID name age } }`)), &m); err != nil {
+		return
+	}
+	for _, f := range []string{"name", "age"} {
+		want := map[string][]string{}
+		for _, d := range m["Doc"] {
+			b, _ := json.Marshal(d[f])
+			want[string(b)] = append(want[string(b)], fmt.Sprint(d["_docID"]))
+		}
+		if _, ok := want["null"]; !ok {
+			want["null"] = nil
+		}
+		for v, ids := range want {
+			sort.Strings(ids)
+			var g map[string][]map[string]any
+			res := w.reps[r].n.GQL(w.ctx, fmt.Sprintf(`query { Doc(filter: {%s: {_eq: %s}}) { _docID } }`, f, v))
+			if err := json.Unmarshal([]byte(res), &g); err != nil {
+				w.out.Oracle(w.out.Lines, fmt.Sprintf("[index-after-merge] case %d replica %d: lookup %s = %s fails: %s", w.caseID, r, f, v, res))
+				continue
+			}
+			var got []string
+			for _, d := range g["Doc"] {
+				got = append(got, fmt.Sprint(d["_docID"]))
+			}
+			sort.Strings(got)
+			if strings.Join(got, ",") != strings.Join(ids, ",") {
+				w.out.Oracle(w.out.Lines, fmt.Sprintf("[index-after-merge] case %d replica %d: index lookup %s = %s returns [%s], the documents holding that value are [%s]", w.caseID, r, f, v, strings.Join(got, ","), strings.Join(ids, ",")))
+			}
+			w.out.Count("index-lookups")
+		}
+	}
+}
+
 // quiescent: every replica has merged every commit; C01's own oracle.
 func (w *world) quiescent() {
 	base := w.gqlDocs(0)
@@ -901,6 +939,12 @@ func (w *world) quiescent() {
 			if h0 != hr {
 				w.out.Oracle(w.out.Lines, fmt.Sprintf("[heads-differ] case %d doc %s: replica 0 reports%s, replica %d reports%s", w.caseID, d, h0, r, hr))
 			}
+		}
+	}
+	// C07: the secondary indexes on name and age answer like the documents themselves, on every replica
+	if !w.branch {
+		for r := range w.reps {
+			w.indexAgrees(r)
 		}
 	}
 	// C04: heads = maximal merged commits, on replica 0
@@ -1045,6 +1089,9 @@ func runCase(ctx context.Context, out *vc.Out, caseID int, n int, branch bool, o
 	func() {
 		defer func() {
 			if r := recover(); r != nil {
+				if os.Getenv("VERIF_STACK") != "" {
+					debug.PrintStack()
+				}
 				out.Oracle(out.Lines, fmt.Sprintf("[panic] case %d: %v", caseID, r))
 			}
 		}()
